@@ -165,7 +165,11 @@ impl MultiProgress {
         };
 
         state.draw_target = ProgressDrawTarget::hidden();
-        self.state.write().unwrap().remove_idx(idx);
+        let mut multi = self.state.write().unwrap();
+        multi.remove_idx(idx);
+        // Take the bar off the screen right away: the bookkeeping for finished bars relies on
+        // the screen showing exactly the current members.
+        let _ = multi.draw(true, None, Instant::now());
     }
 
     fn internalize(&self, location: InsertLocation, pb: ProgressBar) -> ProgressBar {
